@@ -1,4 +1,4 @@
-CONSTANTS Variant = "DropUnparsableCert"
+CONSTANTS Variant = "DropUnparsableCert"  ALens = {"natural"}  Slim = FALSE
 SPECIFICATION Spec
 INVARIANTS TypeOK SignedPartsSame MandatoryAttrsOnce RefuseOnlyWhenJustified
 CHECK_DEADLOCK FALSE
